@@ -256,3 +256,22 @@ def engine_check(prop, tier, level="model_checking", n_quick=240, n_thorough=240
                         "energy ownership is decided by comparing with a from-scratch evaluation (independent calculator instance) at rel. tol. 1e-9; configurations with equal energies are admitted as a set",
                         "after a recorded finding that corrupts the run persistently the rest of that trace is not judged"]
     return rep.finish() if finish else rep
+
+
+def replay(record):
+    """./check <id> --replay <file>: re-record the scenario of an engine violation and validate it again"""
+    rp = record.get("replay", {})
+    seed, fam = rp.get("scenario_seed"), rp.get("family")
+    if seed is None:
+        print("this replay record carries no scenario seed (not an engine trace); re-run the check with VERIF_SEED =", record.get("seed"))
+        return 0
+    traces = qtrace.record_batch([(seed, fam)], procs=1)
+    good = [t for t in traces if "harness_error" not in t]
+    if not good:
+        print("scenario could not be rebuilt:", traces[0].get("harness_error"))
+        return 2
+    fails, done, r = qtrace.validate(good)
+    for f in fails:
+        print(f"event {f['l']} ({f['a']} of '{f['name']}', verdict {f['verdict']}): {f['kind']} {sorted(f['what'])} {f['exc']}  -> {sorted(attribute(f, good[0]))}")
+    print(f"{len(fails)} rejected events in {len(good[0]['ev'])} events of scenario seed={seed} family={fam}")
+    return 1 if fails else 0
